@@ -407,7 +407,7 @@ static void handle(char *line) {
     if (!strcmp(f[1], "reset")) jreset();
   } else if (nf >= 2 && !strcmp(f[0], "fault")) {
     /* fault <k|-1> [errno] [persistent:0|1] [partial:0|1] [kinds] : the k-th faultable call from now on fails */
-    g_fault_count = 0; g_fault_fired = 0;
+    g_fault_count = 0; g_fault_fired = 0; memset(g_kind_count, 0, sizeof(g_kind_count));
     g_fault_at = atol(f[1]);
     g_fault_errno = nf > 2 ? atoi(f[2]) : 28;
     g_fault_persistent = nf > 3 ? atoi(f[3]) : 0;
@@ -415,7 +415,9 @@ static void handle(char *line) {
     snprintf(g_fault_kinds, sizeof(g_fault_kinds), "%s", nf > 5 ? f[5] : "");
     printf("fault-armed %ld\n", g_fault_at);
   } else if (nf == 1 && !strcmp(f[0], "faultstat")) {
-    printf("faultstat calls=%ld fired=%ld\n", g_fault_count, g_fault_fired);
+    { int i; printf("faultstat calls=%ld fired=%ld", g_fault_count, g_fault_fired);
+      for (i = 0; i < 10; i++) printf(" %s=%ld", g_kind_names[i], g_kind_count[i]);
+      fputc('\n', stdout); }
   } else if ((nf == 4 || nf == 5) && !strcmp(f[0], "crashscan")) {
     if (g_db) { printf("err crashscan needs a closed db\n"); return; }
     crash_points(1, nJ, atoi(f[1]), f[2], f[3], nf == 5);
@@ -460,7 +462,7 @@ static void handle(char *line) {
   } else if (nf == 1 && !strcmp(f[0], "flushmem")) {
     uint64_t lognum = g_db->logfile_number; int rc = ldb_test_compact_memtable(g_db);
     if (g_db->logfile_number != lognum) printf("switch\n");
-    if (rc != LDB_OK) printf("err flushmem %d\n", rc);
+    if (rc != LDB_OK) printf("operr flushmem %d\n", rc);
     after_op();
   } else if (nf == 4 && !strcmp(f[0], "compact")) {
     ldb_slice_t b, e, *bp = NULL, *ep = NULL;
